@@ -49,15 +49,25 @@ func (t *Template) Parse() error {
 
 // Exec the template using the content and return the results
 func (t *Template) Exec(ctx hctx.Context) (string, error) {
+	return t.exec(ctx, 0)
+}
+
+// exec executes the template as part of a rendering that is already depth
+// blocks, function calls and partials deep.
+func (t *Template) exec(ctx hctx.Context, depth int) (string, error) {
 	err := t.Parse()
 	if err != nil {
 		return "", err
+	}
+	if depth >= maxCallDepth {
+		return "", tooDeep()
 	}
 
 	ev := compiler{
 		ctx:     ctx,
 		program: t.program,
 		exec:    &execution{},
+		depth:   depth,
 	}
 
 	s, err := ev.compile()
